@@ -25,6 +25,7 @@ def check(run):
     joinrepr(run, p)
     attrs(run, p)
     snapshot(run, p)
+    encfallback(run, p)
     run.assume('file names of scripts and encodings are made of characters that need no escaping in Python source')
     run.trust('repr() of a str is a valid Python expression denoting it; os.path functions are pure')
 
@@ -468,3 +469,53 @@ def snapshot(run, p):
     run.ob('C11-SNAPSHOT', 'TestGenerator:snapshot', len(kinds) >= 2 and allk == {'ctime'},
            'timestamps used with self.snapshot: %s' % {k: sorted(v) for k, v in sorted(kinds.items())}, fn=c.methods['snapshot_filesystem'])
     run.floor('C11-SNAPSHOT', len(kinds), 2)
+
+
+def encfallback(run, p):
+    from ..mirror import blocks_of as mirror_blocks
+    run.rule('C11-ENCODING', 'the generated assertion names the encoding the file was actually read with: in protected_readlines every '
+                             'read that opens the file with a literal fallback encoding records that encoding on the FileType '
+                             'object before it returns the lines (a store placed after the return never runs), and that attribute is '
+                             'the one write_script emits as encoding=')
+    f = p.fn('tdda.referencetest.utils.protected_readlines')
+    ft = f.posparams[1] if len(f.posparams) > 1 else None
+    if ft is None:
+        raise AnalysisError('protected_readlines lost its filetype parameter')
+    n = 0
+    for w in p.own_nodes(f):
+        if not isinstance(w, ast.With):
+            continue
+        enc = None
+        for it in w.items:
+            c = it.context_expr
+            if isinstance(c, ast.Call) and getattr(c.func, 'id', '') == 'open':
+                for k in c.keywords:
+                    if k.arg == 'encoding' and isinstance(k.value, ast.Constant) and isinstance(k.value.value, str):
+                        enc = k.value.value
+        if enc is None:
+            continue
+        n += 1
+        # walk the with-body and then the statements that follow the with in its block: the store must come before the
+        # first return on that straight line
+        seq = list(w.body)
+        for b in mirror_blocks(f.node):
+            if w in b:
+                seq += b[b.index(w) + 1:]
+        stored = False
+        verdict = False
+        for s in seq:
+            if isinstance(s, ast.Assign) and any(norm(t) == '%s.encoding' % ft for t in s.targets) and \
+                    isinstance(s.value, ast.Constant) and s.value.value == enc:
+                stored = True
+            if any(isinstance(x, ast.Return) for x in ast.walk(s)):
+                verdict = stored
+                break
+        run.ob('C11-ENCODING', '%s::%s::open(encoding=%r)' % (f.rel, f.short, enc), bool(verdict),
+               'fallback read with %r %s' % (enc, 'records the encoding before returning' if verdict else
+                                             'returns without recording the encoding: the generated test will name the original guess'),
+               fn=f, node=w)
+    ws = p.method('TestGenerator', 'write_script')
+    src = ast.unparse(ws.node)
+    run.ob('C11-ENCODING', '%s::%s::emits-filetype-encoding' % (ws.rel, ws.short), '.encoding' in src and 'encoding=' in src,
+           'write_script emits encoding= from the FileType object', fn=ws, nontrivial=False)
+    run.floor('C11-ENCODING', n, 1)
